@@ -128,7 +128,9 @@ def _parse_string(s):
     frac = float("0." + s_frac) * factor
     count = float("0" + s_count) * factor
 
-    assert count + frac == test
+    # The sum rounds twice, so it can differ from the directly parsed value
+    # in the last place.
+    assert abs(count + frac - test) <= 2 * np.spacing(abs(test))
     return count, frac
 
 
